@@ -573,4 +573,136 @@ theorem rejects_bad_mask (be : Backend) (ver : Nat) (hver : VerOK ver) (val1 : L
 
 example : isNetmask 32 0xff00ff00 = false ∧ isHostmask 0xff00ff00 = false := by decide
 
+
+/-! ### a malformed address part -/
+
+/-- `cidr_abbrev_to_verbose` on a text without '/': unchanged; or one numeral in 0..255 expanded
+    to `n.0.0.0/<class>`; or at most four '.'-pieces padded with "0" pieces and given the class
+    prefix of the first -/
+theorem abbrev_bare_cases (txt : List Char) (h1 : txt.contains '/' = false) :
+    cidrAbbrevToVerbose txt = txt ∨
+    (∃ n : Int, Py.pyInt 10 txt = some n ∧ (0 ≤ n ∧ n ≤ 255) ∧
+      cidrAbbrevToVerbose txt = ntoa (n.toNat * 16777216) ++ '/' :: dec (classOf n.toNat)) ∨
+    (Py.pyInt 10 txt = none ∧ ':' ∉ txt ∧ (txt.splitOn '.').length ≤ 4 ∧ ∃ c, c ≤ 32 ∧
+      cidrAbbrevToVerbose txt =
+        ['.'].intercalate (txt.splitOn '.' ++ List.replicate (4 - (txt.splitOn '.').length) ['0']) ++ '/' :: dec c) := by
+  by_cases h0 : (txt.contains ':' || txt == []) = true
+  · left; unfold cidrAbbrevToVerbose; rw [if_pos h0]
+  · have hcol : ':' ∉ txt := by
+      intro hmem
+      apply h0
+      rw [List.contains_iff_mem.mpr hmem]; rfl
+    cases hpi : Py.pyInt 10 txt with
+    | some n =>
+      by_cases hn : 0 ≤ n ∧ n ≤ 255
+      · right; left
+        exact ⟨n, rfl, hn, abbrev_one txt n hpi hn⟩
+      · left
+        have hcls : classfulPrefix n = none := by rw [classful_rules, if_neg hn]
+        unfold cidrAbbrevToVerbose
+        rw [if_neg h0]
+        simp only [hpi, hcls]
+    | none =>
+      unfold cidrAbbrevToVerbose
+      rw [if_neg h0]
+      simp only [hpi, splitSlash_none _ h1, Bool.not_true, Bool.false_eq_true, if_false]
+      by_cases hl : (txt.splitOn '.').length > 4
+      · left; rw [if_pos hl]
+      · rw [if_neg hl]
+        cases hh : Py.pyInt 10 ((txt.splitOn '.' ++ List.replicate (4 - (txt.splitOn '.').length) ['0']).headD []) with
+        | none => left; rfl
+        | some o =>
+          simp only
+          cases hc : classfulPrefix o with
+          | none => left; rfl
+          | some c =>
+            right; right
+            have hc32 : c ≤ 32 := by
+              rw [classful_rules] at hc
+              split at hc
+              · simp only [Option.some.injEq] at hc; rw [← hc]; exact classOf_le _
+              · cases hc
+            refine ⟨trivial, hcol, by omega, c, hc32, ?_⟩
+            simp
+
+theorem core_reject_addr (be : Backend) (ver : Nat) (val1 : List Char) (val2 : Option (List Char)) (fl : Nat)
+    (h : addrOf be ver val1 = .error .addrFormat) : parseStrCore be ver val1 val2 fl = .error .addrFormat := by
+  rw [parseStrCore_eq, h]
+
+/-- **A malformed address part is refused, whatever follows.**  `val1` is any '/'-free text
+    that is neither an IPv4 address part (`addr4Spec`: at most four '.'-pieces, each read by
+    `int()`, each in 0..255) nor accepted by `inet_pton(AF_INET6, ·)`.  Bare or followed by
+    '/' and any text at all, version None / 4 / 6, implicit_prefix False or True, any flags:
+    AddrFormatError. -/
+theorem rejects_bad_address (be : Backend) (val1 : List Char) (h1 : val1.contains '/' = false)
+    (h4 : addr4Spec val1 = none) (h6 : inetPton6 be val1 = none) (suffix : Option (List Char))
+    (pver : Option Nat) (hpver : pver = none ∨ pver = some 4 ∨ pver = some 6) (i : Bool) (fl : Nat) :
+    ipNetwork be (.str (val1 ++ (match suffix with | none => [] | some T => '/' :: T))) i pver fl = .error .addrFormat := by
+  have a4 : addrOf be 4 val1 = .error .addrFormat := by rw [addr4_eq be val1 h1, h4]
+  have a6 : addrOf be 6 val1 = .error .addrFormat := by
+    have h64 : ¬ ((6 : Nat) = 4) := by decide
+    unfold addrOf
+    rw [ipAddress6_strict be val1 h1, h6]
+    simp only [h64, if_false]
+  have aa : ∀ ver, VerOK ver → addrOf be ver val1 = .error .addrFormat := by
+    intro ver hver; rcases hver with e | e <;> subst e <;> assumption
+  cases suffix with
+  | some T =>
+    simp only
+    have red : ipNetwork be (.str (val1 ++ '/' :: T)) i pver fl = ipNetwork be (.str (val1 ++ '/' :: T)) false pver fl := by
+      cases i with
+      | false => rfl
+      | true => exact explicit_prefix_wins be _ (by simp) pver fl
+    rw [red]
+    apply net_reject_of_parse be _ false fl pver _ hpver
+    intro ver _ hver
+    by_cases hT : T.contains '/' = true
+    · unfold parseIpNetwork
+      simp only [Bool.false_eq_true, if_false, splitSlash_app _ T h1, secondSlash, hT, if_true]
+    · have hT' : T.contains '/' = false := by
+        cases hh : T.contains '/' with
+        | true => exact absurd hh hT
+        | false => rfl
+      rw [parse_split be ver val1 T fl h1 hT']
+      exact core_reject_addr be ver val1 _ fl (aa ver hver)
+  | none =>
+    simp only [List.append_nil]
+    have hfalse : ipNetwork be (.str val1) false pver fl = .error .addrFormat := by
+      apply net_reject_of_parse be _ false fl pver _ hpver
+      intro ver _ hver
+      rw [parse_nosplit be ver val1 fl h1]
+      exact core_reject_addr be ver val1 _ fl (aa ver hver)
+    cases i with
+    | false => exact hfalse
+    | true =>
+      rw [ipNetwork_implicit]
+      rcases abbrev_bare_cases val1 h1 with e | ⟨n, hpi, hn, _⟩ | ⟨_, hcol, hlen, c, _, e⟩
+      · rw [e]; exact hfalse
+      · exfalso
+        have hd := (pyInt_some_clean val1 n hpi).1
+        rw [addr4Spec_alt, splitOn_single '.' val1 hd] at h4
+        simp only [List.mapM_cons, List.mapM_nil, hpi, Option.bind_eq_bind, Option.bind_some, Option.pure_def] at h4
+        have hr : InRange [n] := by
+          intro x hx; simp only [List.mem_singleton] at hx; subst hx; exact hn
+        have hl : [n].length ≤ 4 := by simp
+        rw [if_pos ⟨hl, hr⟩] at h4
+        cases h4
+      · rw [e]
+        have hX : (['.'].intercalate (val1.splitOn '.' ++ List.replicate (4 - (val1.splitOn '.').length) ['0'])).contains '/' = false := by
+          apply contains_false_of_not_mem
+          intro hmem
+          rcases mem_padded val1 _ '/' hmem with r | r | r
+          · exact C01.not_mem_of_contains_false h1 r
+          · exact absurd r (by decide)
+          · exact absurd r (by decide)
+        apply net_reject_of_parse be _ false fl pver _ hpver
+        intro ver _ hver
+        rw [parse_split be ver _ _ fl hX (C03L.slash_not_in_dec c)]
+        apply core_reject_addr
+        rw [addrOf_pad be ver hver val1 h1 hcol hlen]
+        exact aa ver hver
+
+example : addr4Spec "1.2.3.256".toList = none ∧ inetPton6 .platform "1.2.3.256".toList = none ∧
+    addr4Spec "1.2.3.4.5".toList = none ∧ addr4Spec "1..2".toList = none ∧ addr4Spec "0x10".toList = none := by decide
+
 end NV.C03
